@@ -15,6 +15,9 @@
     such a field directly (assignment, element assignment, std::copy/fill
     destination, resize/clear/swap); the fields recomputed from immutable
     data before each attempt (e0, e_th0, esv0) are listed exceptions.
+ R4 named parameters of the study state (getParameter<T>("Name")): a parameter
+    whose name ends in AtBeginningOfTimeStep is set only from constants or from
+    parameters written by the post-convergence stage alone.
 Not decided: equality of the final state with a direct run; writes through
 references that escape the direct idioms.
 """
@@ -277,6 +280,89 @@ def run(tier):
     if not any(v["key"].startswith("BEGIN-OF-STEP-WRITE") for v in rep.violations):
         rep.ok("an attempt (iterate / iterate2 and everything they call) leaves no beginning-of-step field of the study state changed "
                "(exceptions recomputed before each attempt: %s)" % ", ".join(sorted(RECOMPUTED)))
+    # ------------------------------------------------------------ R4 named parameters of the study state
+    # StudyCurrentState also carries named parameters (getParameter<T>("Name", create) returns a reference into a map): a name ending
+    # in AtBeginningOfTimeStep is a beginning-of-step value; it may be (re)set, at each attempt, only from a constant or from a parameter
+    # that is written by the post-convergence stage only (a committed value), never from one that the iterations of an attempt write.
+    def pname(g, sid):
+        n = g.stmts.get(g.strip(sid))
+        if n is None:
+            return None
+        if n["k"] == "CXXMemberCallExpr" and (n.get("callee") or "").rsplit("::", 1)[-1] in ("getParameter", "setParameter", "containsParameter") \
+                and n.get("args"):
+            lit = [g.stmts[x].get("value") for x in g.walk(n["args"][0]) if g.stmts[x]["k"] == "StringLiteral"]
+            return lit[0] if lit else None
+        return None
+    writes = []      # (function qname, target parameter, sources, location)
+    for g in funcs:
+        refs = {}
+        for s_, n in g.stmts.items():
+            if n["k"] == "DeclStmt":
+                for dd in n["decls"]:
+                    if "init" in dd and (dd.get("type") or "").rstrip().endswith("&") and "const" not in (dd.get("type") or ""):
+                        nm = pname(g, dd["init"])
+                        if nm:
+                            refs[dd["declId"]] = nm
+
+        def target(sid):
+            n = g.stmts.get(g.strip(sid))
+            if n is None:
+                return None
+            if n["k"] == "DeclRefExpr" and n.get("declId") in refs:
+                return refs[n["declId"]]
+            if n["k"] == "CXXMemberCallExpr" and (n.get("callee") or "").rsplit("::", 1)[-1] == "getParameter":
+                return pname(g, g.strip(sid))
+            return None
+
+        def sources(sid):
+            src = set()
+            for x in g.walk(sid):
+                m = g.stmts[x]
+                if m["k"] == "CXXMemberCallExpr" and (m.get("callee") or "").rsplit("::", 1)[-1] == "getParameter":
+                    nm = pname(g, x)
+                    src.add(nm or "<other>")
+                elif m["k"] == "DeclRefExpr" and m.get("declId") in refs:
+                    src.add(refs[m["declId"]])
+                elif m["k"] == "DeclRefExpr" and m.get("declKind") in ("Var", "ParmVar") and m.get("declId") not in refs \
+                        and not (m.get("declType") or "").startswith("mtest::StudyCurrentState"):
+                    src.add("<other>")
+                elif m["k"] in ("CallExpr", "CXXOperatorCallExpr") and not (m.get("callee") or "").startswith("std::"):
+                    src.add("<other>")
+            return src or {"<const>"}
+        top = g
+        for s_, n in sorted(g.stmts.items()):
+            if n["k"] == "BinaryOperator" and n.get("op") == "=":
+                l, r = g.kids(s_)[:2]
+                t = target(l)
+                if t is None:
+                    continue
+                # chained assignments: the value comes from the innermost right-hand side
+                rr = r
+                while g.stmts.get(g.strip(rr), {}).get("k") == "BinaryOperator" and g.stmts[g.strip(rr)].get("op") == "=":
+                    rr = g.kids(g.strip(rr))[1]
+                writes.append((g.qname, t, sources(rr), g.short_loc(s_)))
+            elif n["k"] == "CXXMemberCallExpr" and (n.get("callee") or "").rsplit("::", 1)[-1] == "setParameter" and len(n.get("args", [])) == 2 \
+                    and (n.get("callee") or "").startswith("mtest::StudyCurrentState"):
+                t = pname(g, s_)
+                if t:
+                    writes.append((g.qname, t, sources(n["args"][1]), g.short_loc(s_)))
+    rep.count("writes to named parameters of the study state", len(writes))
+    writers = {}
+    for q, t, src, loc in writes:
+        writers.setdefault(t, set()).add(q.rsplit("::", 1)[-1])
+    committed = set(t for t, ws in writers.items() if ws <= {"postConvergence"})
+    for q, t, src, loc in writes:
+        if not t.endswith("AtBeginningOfTimeStep"):
+            continue
+        rep.count("writes to beginning-of-step parameters")
+        badsrc = sorted(x for x in src if x != "<const>" and x not in committed)
+        if badsrc:
+            rep.fail("BEGIN-OF-STEP-PARAMETER@%s#%s" % (q, t), "%s: %s sets the beginning-of-step parameter '%s' from %s, which is written during the "
+                     "iterations of an attempt (by %s): after a rejected attempt the next one starts from the rejected attempt's value "
+                     "instead of the committed one" % (rel(loc), q, t, badsrc, sorted(set(w for b_ in badsrc for w in writers.get(b_, ["?"])))))
+        else:
+            rep.ok("%s sets '%s' from %s" % (q, t, sorted(src)))
+    rep.floor("writes to beginning-of-step parameters", 1)
     rep.floor("committed fields", 5)
     rep.floor("state fields an attempt may leave changed", 6)
     rep.floor("functions with a write summary on a state record", 20)
